@@ -1,4 +1,5 @@
 """C07 Observables computed from the network equal their dense definitions."""
+from vk.symx.harness import guarded
 import itertools
 
 import numpy as np
@@ -229,7 +230,7 @@ def worker(case, led):
 
 def check(run):
     from props import C07_sym
-    C07_sym.prove(run)
+    guarded(run, C07_sym.prove)
     seeds = [run.seed] if run.tier == "quick" else [run.seed, run.seed + 1]
     ns = [2, 3, 4] if run.tier == "quick" else [1, 2, 3, 4, 5]
     cases = [(name, n, s, run.tier) for name in ("spin", "spinqn", "holstein", "spin2qn") for n in ns for s in seeds]
